@@ -552,7 +552,7 @@ def enc_line(name, a):
     if name == "history":
         return "enc history 1" if a is None else "enc history 0 %d" % a
     if name == "reslimits":
-        return "enc reslimits " + " ".join(str(-1 if x is None else x) for x in a)
+        return "enc reslimits " + " ".join("u" if x is None else str(x) for x in a)
     if name == "partition":
         return "enc partition " + " ".join(hx(s) for s in a)
     if name == "datarep":
